@@ -314,6 +314,24 @@ def r3(ctx, R):
             for rd in reads:
                 if not q.dominated(fi, ad, rd):
                     R.bad(fi, rd, ".arguments is read before apply_defaults()")
+    # every key that is looked up in an instance table was normalised (signature defaults applied)
+    for f in ctx.repo.module("modelx.core.space").all_funcs:
+        if f.cls is None or f.cls.name not in ("BaseSpace", "UserSpace", "DynamicSpace", "ItemSpace"):
+            continue
+        for x in walk_local(f.node):
+            if isinstance(x, ast.Compare) and len(x.ops) == 1 and isinstance(x.ops[0], (ast.In, ast.NotIn)) \
+                    and "param_spaces" in norm(x.comparators[0]) and isinstance(x.left, ast.Name):
+                kdef = q.origin(f, x.left)
+                if kdef is x.left:      # a re-bound parameter: the one assignment that dominates the test
+                    asg = [n_ for n_ in walk_local(f.node) if isinstance(n_, ast.Assign) and len(n_.targets) == 1
+                           and norm(n_.targets[0]) == x.left.id]
+                    if len(asg) == 1 and q.dominated(f, [asg[0]], x):
+                        kdef = asg[0].value
+                R.inst("%s: key tested against param_spaces is a normalised key" % f.short)
+                txt = norm(kdef)
+                if not (isinstance(kdef, ast.Subscript) and norm(kdef.slice) == "KEY" and "get_node(" in txt):
+                    R.bad(f, x, "an ItemSpace is looked up under the raw key `%s`: with default parameters S[1] exists under "
+                                "(1, 2) but this spelling does not find it" % txt)
     ba = ctx.func("node:_bind_args")
     R.inst("_bind_args returns tuple(arguments.values())")
     rr = q.returns(ba)
